@@ -24,6 +24,7 @@ import (
 	"strings"
 	"sync"
 	"testing"
+	"time"
 
 	"github.com/sanonone/kektordb/internal/verifkit"
 	"github.com/sanonone/kektordb/pkg/engine"
@@ -62,6 +63,7 @@ func c02FrameStarts(b []byte) []int {
 
 type c02Stats struct {
 	Images, Torn, SecondCrash int
+	PostCompaction            int // images on which the post-recovery delete + compaction + restart step ran
 	Points                    map[string]int
 	Capped                    bool
 	ExcludedCompress          int
@@ -76,6 +78,14 @@ func c02OpenAndCheck(img c02Image, states []*Model, hi int, probe map[string][]s
 		return "harness: copying image: " + err.Error()
 	}
 	defer os.RemoveAll(work)
+	leftovers := false // the crash left temporary files of an interrupted snapshot / compaction behind
+	if ents, err := os.ReadDir(work); err == nil {
+		for _, en := range ents {
+			if strings.HasSuffix(en.Name(), ".tmp") {
+				leftovers = true
+			}
+		}
+	}
 
 	var second []c02Image
 	if allowSecond {
@@ -165,12 +175,76 @@ func c02OpenAndCheck(img c02Image, states []*Model, hi int, probe map[string][]s
 		return fmt.Sprintf("Open after post-recovery writes failed: %v", err)
 	}
 	d4, derr := TakeDump(e3, p2)
-	e3.Close()
 	if derr != nil {
+		e3.Close()
 		return "reading the engine after the post-recovery restart failed: " + derr.Error()
 	}
 	if diff := DiffDumps(d3, d4); diff != "" {
+		e3.Close()
 		return "after recovery, writing more (KV + vector in " + addedIdx + ") and restarting lost or changed data: " + diff
+	}
+	if !leftovers && (*seq)%8 != 0 {
+		e3.Close()
+	} else if m := func() string {
+		stats.PostCompaction++
+		// a log compaction in the recovered engine (it meets whatever temporary files the crash left behind)
+		// followed by a restart changes nothing; a key and a vector are deleted first, so that stale content
+		// that finds its way into the compacted log shows as a resurrection
+		var delNote string
+		for _, k := range kvKeys(d4.KV) {
+			if k != "zz_after_crash" && !strings.HasPrefix(k, "_") {
+				if err := e3.KVDelete(k); err != nil {
+					e3.Close()
+					return "KVDelete in the recovered engine failed: " + err.Error()
+				}
+				delNote = "key " + k
+				break
+			}
+		}
+		for _, n := range idxNames(d4) {
+			if ids := d4.Idx[n].IDs; len(ids) > 1 {
+				if err := e3.VDelete(n, ids[0]); err != nil {
+					e3.Close()
+					return fmt.Sprintf("VDelete(%s,%s) in the recovered engine failed: %v", n, ids[0], err)
+				}
+				delNote += " vector " + n + "/" + ids[0]
+				// let the cascade finish: an interrupted one is repaired at the next start with new deletion times
+				deadline := time.Now().Add(2 * time.Second)
+				g := n + "::" + ids[0]
+				for time.Now().Before(deadline) && (len(e3.DB.GetAllRelations(g, "in")) != 0 || len(e3.DB.GetAllRelations(g, "out")) != 0) {
+					time.Sleep(time.Millisecond)
+				}
+				time.Sleep(2 * time.Millisecond)
+				break
+			}
+		}
+		d4, derr = TakeDump(e3, p2)
+		if derr != nil {
+			e3.Close()
+			return "reading the recovered engine after deletes failed: " + derr.Error()
+		}
+		if err := e3.RewriteAOF(); err != nil {
+			e3.Close()
+			return "RewriteAOF in the recovered engine failed: " + err.Error()
+		}
+		if err := e3.Close(); err != nil {
+			return "Close after the post-recovery RewriteAOF failed: " + err.Error()
+		}
+		e4, err := engine.Open(engineOpts(work))
+		if err != nil {
+			return fmt.Sprintf("Open after the post-recovery RewriteAOF failed: %v", err)
+		}
+		d5, derr := TakeDump(e4, p2)
+		e4.Close()
+		if derr != nil {
+			return "reading the engine after the post-recovery RewriteAOF + restart failed: " + derr.Error()
+		}
+		if diff := DiffDumps(d4, d5); diff != "" {
+			return "after recovery, deleting (" + delNote + "), compacting the log and restarting changed the data (leftover temporary files of the crashed run?): " + diff
+		}
+		return ""
+	}(); m != "" {
+		return m
 	}
 	for _, s := range second {
 		stats.SecondCrash++
@@ -406,7 +480,7 @@ func c02Classify(ops []Op) (labels []string, admin bool) {
 
 func TestVerif_C02_crash(t *testing.T) {
 	col := verifkit.New("C02", "crash",
-		"rapid-generated histories of 5-26 engine ops (with Flush markers, snapshots, rewrites, drops, imports, compress, deletes) x a crash image of the data directory at EVERY verif hook point the history hits (journal/apply gaps of every mutating op; each phase boundary of SaveSnapshot, RewriteAOF, Compress, VDeleteIndex, the delete cascade, and of recovery itself during restarts) x a second crash image taken inside the recovery of each image x torn log tails: at journal points the harness forces the lazy writer to flush (as its ticker could) and then recovers from every prefix of the bytes that flush wrote (all header offsets, payload offsets strided in quick / all in thorough); per image: Open succeeds, every item's value is one it held between the durable floor and the interrupted op, fixed point, write-more-and-restart; non-trivial = the history contains a multi-step op (snapshot, rewrite, drop, import, compress, delete) so that images fall strictly inside it")
+		"rapid-generated histories of 5-26 engine ops (with Flush markers, snapshots, rewrites, drops, imports, compress, deletes) x a crash image of the data directory at EVERY verif hook point the history hits (journal/apply gaps of every mutating op; each phase boundary of SaveSnapshot, RewriteAOF, Compress, VDeleteIndex, the delete cascade, and of recovery itself during restarts) x a second crash image taken inside the recovery of each image x torn log tails: at journal points the harness forces the lazy writer to flush (as its ticker could) and then recovers from every prefix of the bytes that flush wrote (all header offsets, payload offsets strided in quick / all in thorough); per image: Open succeeds, every item's value is one it held between the durable floor and the interrupted op, fixed point, write-more-and-restart, and (for images that hold leftover temporary files, and one in eight of the others) delete + log compaction + restart; non-trivial = the history contains a multi-step op (snapshot, rewrite, drop, import, compress, delete) so that images fall strictly inside it")
 	defer col.Finish()
 	torn := verifkit.Pick(4, 10)
 	maxImg := verifkit.Pick(120, 400)
@@ -427,7 +501,7 @@ func TestVerif_C02_crash(t *testing.T) {
 		return
 	}
 	verifkit.RapidSetup(160, 3000)
-	totalImages, totalTorn, totalSecond := 0, 0, 0
+	totalImages, totalTorn, totalSecond, totalPost := 0, 0, 0, 0
 	points := map[string]int{}
 	allExhaustive := true
 	rapid.Check(t, func(rt *rapid.T) {
@@ -442,6 +516,7 @@ func TestVerif_C02_crash(t *testing.T) {
 		totalImages += st.Images
 		totalTorn += st.Torn
 		totalSecond += st.SecondCrash
+		totalPost += st.PostCompaction
 		for i := 0; i < st.ExcludedCompress; i++ {
 			col.Excluded("compress-crash")
 		}
@@ -459,6 +534,7 @@ func TestVerif_C02_crash(t *testing.T) {
 	col.Extra("crash_images_checked", totalImages)
 	col.Extra("torn_tail_variants_checked", totalTorn)
 	col.Extra("second_crash_images_checked", totalSecond)
+	col.Extra("post_recovery_compactions_checked", totalPost)
 	col.Extra("hook_point_occurrences", points)
 	col.SetExhaustive(allExhaustive)
 	col.Note("exhaustive=true means: for every generated history, every hook-point occurrence it hit was imaged and checked (no cap hit); the space of histories itself is sampled")
